@@ -1,8 +1,9 @@
 (* C14: commands fail cleanly.  input: "<cmd> # <flagspec> # <tree>" (harness/c14.go),
    observed: "class=OK|ERR|PANIC|HANG|OOM|EXIT<n> stdout_empty=0|1 stderr_nonempty=0|1 [sig=...]".
    spec verdict: Spec.FailSpec.clean_run_b on the observation.
-   model output: the class predicted by the repaired model (Model/CliSafe.v on Model/Loader.v)
-   when the case lies inside the modelled space (flagspec "pred" or "bal ..."), "-" otherwise. *)
+   model output: the class predicted by the repaired model (Model/CliSafe.v, Model/CliSafeMore.v
+   on Model/Loader.v) when the case lies inside the modelled space (flagspec "pred", "bal ...",
+   "tc ...", "pfw ...", "pfwt ...", "pfr ..."), "-" otherwise. *)
 open Drv_util
 open Drv_journal
 
@@ -40,6 +41,29 @@ let decode_tree (tree : string) : (K.z list list * K.LoaderM.fcontent) list * K.
   let root = match entries with (p, _) :: _ -> p | [] -> K.LoaderM.path_of_string (str_of_string "missing.knut") in
   (entries, root)
 
+(* PfCfg.Enc() of harness/c20.go (the decoder of drv_c20.ml is linked after this file) *)
+let decode_pf (s : string) : K.pf_cfg =
+  let kv = kv_of s in
+  let g k = try List.assoc k kv with Not_found -> "-" in
+  let universe =
+    let u = g "uni" in
+    if u = "-" || u = "" then None else
+    Some (List.filter_map (fun cl ->
+      match String.rindex_opt cl '=' with
+      | Some i -> Some (str_of_string (String.sub cl 0 i),
+                        List.map str_of_string (String.split_on_char ',' (String.sub cl (i + 1) (String.length cl - i - 1))))
+      | None -> None) (String.split_on_char ';' u)) in
+  { K.pc_from = date_of (g "from"); K.pc_to = date_of (g "to");
+    K.pc_interval = Drv_c11.interval_of_string (g "iv");
+    K.pc_last = z_of_int (try int_of_string (g "last") with _ -> 0);
+    K.pc_valuation = (if g "val" = "-" then None else Some (str_of_string (g "val")));
+    K.pc_accounts = List.map rx_of (list_dec (g "acc"));
+    K.pc_commodities = List.map rx_of (list_dec (g "com"));
+    K.pc_mapping = List.map rule_of (list_dec (g "map"));
+    K.pc_alpha = (g "alpha" = "1");
+    K.pc_universe = universe;
+    K.pc_lenient = true }
+
 let string_of_pred = function K.CliSafeM.PredOK -> "OK" | K.CliSafeM.PredERR -> "ERR" | K.CliSafeM.PredPANIC -> "PANIC"
 
 let () =
@@ -55,7 +79,8 @@ let () =
     let g k = try List.assoc k kv with Not_found -> "" in
     let cls = g "class" in
     let report = List.mem cmd report_cmds in
-    let predicted = (flags = "pred") || (match prefix_strip "bal " flags with Some _ -> true | None -> false) in
+    let has p = (match prefix_strip p flags with Some _ -> true | None -> false) in
+    let predicted = (flags = "pred") || has "bal " || has "tc " || has "pfw " || has "pfwt " || has "pfr " in
     (* "an error in any included file fails the whole command": when the whole tree is
        structured (no raw file whose parseability is unknown) the loader's verdict on the tree
        is known, and a command that follows includes must not succeed if it is an error *)
@@ -88,6 +113,22 @@ let () =
         | "balance" ->
           (match prefix_strip "bal " flags with
            | Some c -> let bc = (decode_cfg c).bc in both (K.CliSafeM.balance_fs bc fs root) (K.CliSafeM.balance_fs_pinned bc fs root)
+           | None -> "-")
+        | "transcode" ->
+          (match prefix_strip "tc " flags with
+           | Some c ->
+             let v = (match prefix_strip "val=" (String.trim c) with
+               | Some "-" | Some "" | None -> None
+               | Some v -> Some (str_of_string v)) in
+             both (K.CliSafeMoreM.transcode_fs true v fs root) (K.CliSafeMoreM.transcode_fs_pinned true v fs root)
+           | None -> "-")
+        | "weights" ->
+          (match (match prefix_strip "pfw " flags with Some c -> Some c | None -> prefix_strip "pfwt " flags) with
+           | Some c -> let pc = decode_pf c in both (K.CliSafeMoreM.weights_fs pc fs root) (K.CliSafeMoreM.weights_fs_pinned pc fs root)
+           | None -> "-")
+        | "returns" ->
+          (match prefix_strip "pfr " flags with
+           | Some c -> let pc = decode_pf c in both (K.CliSafeMoreM.returns_fs pc fs root) (K.CliSafeMoreM.returns_fs_pinned pc fs root)
            | None -> "-")
         | _ -> "-"
       end in
